@@ -344,6 +344,28 @@ def confirm_native(kind, case, tr):
         should_stay = any(has_service(r) for r in case['roots'])
         stays = tr.stuck and not tr.main_done
         return stays != should_stay
+    if kind == 'start_after_lastfail':
+        deps = {int(k): v for k, v in case['deps'].items()}
+        kinds = case['kinds']
+
+        def below(t, seen=()):
+            out = set()
+            for d in deps.get(t, []):
+                if d not in seen:
+                    out.add(d)
+                    out |= below(d, seen + (d,))
+            return out
+        lastfail = {}
+        for e in evs:
+            if e[0] == 'spawn':
+                if any(lastfail.get(d) for d in below(e[1]) if kinds[d] != 'aggregate'):
+                    return True
+                lastfail[e[1]] = False
+            elif e[0] == 'spawn_failed':
+                lastfail[e[1]] = True
+            elif e[0] == 'reap' and e[2] != 'killed':
+                lastfail[e[1]] = (e[2] != 0)
+        return False
     if kind == 'not_converged':
         deps = {int(k): v for k, v in case['deps'].items()}
         kinds = case['kinds']
@@ -558,7 +580,7 @@ LOCAL_MONITORS = {
     'C01': ['bad_decide', 'ok_without_cause', 'requested_non_dependency', 'reports_on_another_target'],
     'C04': ['late_unanswered', 'misdirected_ok', 'idle_although_ready'],
     'C06': ['late_unanswered', 'bad_decide', 'ok_without_cause', 'reports_on_another_target'],
-    'C07': ['ok_on_fail', 'ok_without_cause'],
+    'C07': ['ok_on_fail', 'ok_without_cause', 'failed_while_acknowledged'],
     'C08': ['twice'],
     'C17': ['withheld_request', 'requested_non_dependency'],
     'C11': ['double_proc', 'wrong_actual', 'proc_left_at_exit'],
